@@ -491,7 +491,15 @@ void fill(char *p, size_t n, uint64_t ordinal) {
 }
 } // namespace
 
-void begin(const Config &c) {
+void saveCarry(Carry &out) {
+  HarnessScope hs;
+  out = Carry();
+  if (!g_arena || g_slot < 0) return;
+  out.valid = true; out.slot = g_slot; out.bump = g_bump;
+  for (uint32_t k = 0; k <= SMALL; k++) for (char *b : g_free[k]) out.freed.emplace_back(k, b);
+  for (auto &e : *g_freeBig) out.freed.push_back(e);
+}
+void begin(const Config &c, const Carry *carry) {
   if (!available() || c.mode == PASSTHROUGH) { g_active = false; return; }
   ensureArena();
   g_harnessDepth++;
@@ -506,9 +514,19 @@ void begin(const Config &c) {
   g_ordinal = 0;
   for (uint32_t k = 0; k <= SMALL; k++) g_free[k].clear();
   g_freeBig->clear();
+  if (carry && carry->valid && carry->slot == g_slot) {
+    // Continue where the earlier operation stopped: fresh blocks follow its last one, and the blocks
+    // it freed are recycled first.
+    g_bump = std::max(g_bump, carry->bump);
+    for (auto &e : carry->freed) { if (e.first <= SMALL) g_free[e.first].push_back(e.second); else g_freeBig->push_back(e); }
+    // What those blocks hold now is not part of the plan (a reference run may have used the region in
+    // between): they are always refilled, so the stale mode becomes a seeded fill.
+    if (g_cfg.mode == STALE) g_cfg.mode = PRNG;
+  }
   g_padRng = Rng(mix64(c.padSeed, 0x9AD));
   g_recRng = Rng(mix64(c.padSeed, 0x4EC));
   counters = Counters();
+  if (carry && carry->valid && carry->slot == g_slot) counters.carried = carry->freed.size();
   counters.slot = (uint64_t)g_slot;
   g_active = true;
   g_harnessDepth--;
